@@ -38,14 +38,15 @@ add("C02", "chain", "model_checking",
 add("C17", "chain", "model_checking",
     "stateless deviation-bounded exhaustive exploration of block histories, address-index audit against the reference UTXO set",
     "Same executions as C01 with --index-addresses; on every reached state the script->outpoint multimap and get_address_info must "
-    "equal the reference unspent set per script and every stored script/value must equal the creating transaction's.",
-    CHAIN_NOTE, "DESIGN.md sections 4 (E1) and 5 C17")
+    "equal the reference unspent set per script and every stored script/value must equal the creating transaction's. Run under sats+addresses+inscriptions and under "
+    "addresses alone with the inscription index starting above the setup prefix (outputs created below that height must still be listed).",
+    CHAIN_NOTE + " Every Index::update() runs under a watchdog: a call that does not return within 240 s ends the run with a violation.", "DESIGN.md sections 4 (E1) and 5 C17")
 
 INSC_TECH = "stateless deviation-bounded exhaustive exploration of block histories on the real Index, sat-based reference model + whole-index audit on every reached state"
-INSC_SPACE = ("Every 2-block history with <=K deviations over the inscription-suite alphabet (62 templates: reveals x envelope kinds x pointers x "
+INSC_SPACE = ("Every 2-block history with <=K deviations over the inscription-suite alphabet (66 templates: reveals x envelope kinds x pointers x "
               "parent references, reinscriptions, transfers; 6 coinbase shapes) at two chain positions (cursed era, straddling the jubilee) runs on the "
               "real Index with update() after every block, in lock-step with a reference model that binds each inscription to a sat and lets the BIP sat model move it; "
-              "plus 8 hand-picked 3-block histories of 5-8 deviations each at both positions under both indexing modes (update() per block / one update() for all blocks). ")
+              "plus 10 hand-picked 3-block histories of 5-8 deviations each at both positions under both indexing modes (update() per block / one update() for all blocks). ")
 add("C03", "chain", "model_checking", INSC_TECH,
     INSC_SPACE + "Oracle: every inscription's reported satpoint equals the reference location of its sat (including the lost-sats pseudo-output), "
     "Index::find of its sat agrees, burned / lost / unbound outcomes carry the stated charms and locations.", CHAIN_NOTE, "DESIGN.md section 5 C03")
@@ -62,9 +63,9 @@ add("C07", "chain", "model_checking", INSC_TECH,
     INSC_SPACE + "Oracle: recorded parents are older, not repeated, named by the envelope and among the inscriptions spent or revealed by the reveal "
     "transaction; the children table is the exact inverse; a visible collection's latest child is its newest child.", CHAIN_NOTE, "DESIGN.md section 5 C07")
 RUNE_TECH = "stateless deviation-bounded exhaustive exploration of block histories on the real Index plus batched single-transaction products, reference model written from the runes specification"
-RUNE_SPACE = ("Every history with <=K deviations over the rune-suite alphabet (62 templates: etchings x name kinds x commitment kinds x terms, cenotaphs, "
+RUNE_SPACE = ("Every history with <=K deviations over the rune-suite alphabet (65 templates: etchings x name kinds x commitment kinds x terms, cenotaphs, "
               "mints, edict / pointer transfers; 4 coinbase shapes) after a prefix preparing commit outputs with 5 and 6 confirmations runs on the real Index "
-              "in lock-step with a reference model written from docs/src/runes/specification.md; plus 6 hand-picked 3-block histories of 5-8 deviations under both indexing "
+              "in lock-step with a reference model written from docs/src/runes/specification.md; plus 8 hand-picked 3-block histories of 5-8 deviations under both indexing "
               "modes (update() per block / one update() for all blocks). ")
 add("C08", "chain", "model_checking", RUNE_TECH,
     RUNE_SPACE + "Oracle on every state: per rune balances + burned = premine + mints x amount; no zero balance, unknown rune, OP_RETURN or spent output in the balance table. "
@@ -107,7 +108,8 @@ add("C15", "chain", "model_checking",
     "stateless deviation-bounded exhaustive exploration of block histories x exhaustive enumeration of index configurations, differential on the inscription/rune projection",
     "Every history of the inscription and rune suites with <=K deviations is indexed under all 8 combinations of {index-sats, index-addresses, index-transactions} plus the node-fetch "
     "configuration (first inscription height moved past the setup prefix, so spent values are fetched from the node); ids, numbers, satpoints, parents, fees, heights, non-sat-derived "
-    "charms, rune entries and balances must be identical after every block.",
+    "charms, rune entries and balances must be identical after every block; the dense multi-deviation families of both suites run under all nine configurations, block by block and "
+    "with one update() for all blocks (so outputs created earlier in the uncommitted batch are spent next to node-fetched inputs).",
     CHAIN_NOTE + " The node-fetch path is reached through a guarded thread-local knob overriding Settings::first_inscription_height.", "DESIGN.md section 5 C15")
 for _pid,_what,_ref in [("C25","runestone round trip over edict lists x etching fields x all 64 terms subsets; decipher of ALL integer sequences up to length 5/6 over a 23-symbol alphabet, ALL byte strings <=3 after OP_RETURN OP_13, against an independent decipher computing the first flaw in the documented order","C25"),
   ("C27","envelope build->parse round trip over all field subsets x size lattice x parents x batches; ALL byte strings <=3 and opcode-token sequences as tapscripts, witnesses of 0..4 elements, against a reference scanner; compact pointer/id encodings over boundary lattices","C27"),
@@ -146,7 +148,8 @@ add("C16", "chain", "model_checking",
     "stateless deviation-bounded exhaustive exploration of block histories x enumeration of index option combinations, plus exhaustive adversarial script batches",
     "Every history with <=K deviations of the sat, inscription and rune suites is indexed under every listed combination of index options, and one adversarial batch of hundreds of thousands of "
     "independent transactions covers every tapscript of <=2 bytes, every opcode-alphabet sequence up to a length after an envelope header (annex absent/present), every OP_RETURN OP_13 script with "
-    "short trailing bytes and every varint sequence up to a length over boundary integers. Oracle: Index::update returns Ok, no panic.",
+    "short trailing bytes, every varint sequence up to a length over boundary integers and every short property value; plus the dense families of the three suites and the batched rune "
+    "scenarios (mint terms at the ends of the integer range). Oracle: Index::update returns Ok, no panic, within the watchdog limit.",
     CHAIN_NOTE + " 'Valid' means no double spend, no value creation, coinbase within subsidy+fees; scripts and witnesses are arbitrary.", "DESIGN.md section 5 C16")
 
 add("C20", "wallet", "exploration",
